@@ -155,6 +155,8 @@ int main(int argc, char **argv) {
       if (op == "spy") { Spy *s = new Spy(); out = "{\"id\":" + jint(s->GetId()) + "}"; }
       else if (op == "create") { out = "{\"id\":" + jint(::CreateIPhreeqc()) + "}"; }
       else if (op == "createF") { out = "{\"id\":" + jint(::CreateIPhreeqcF()) + "}"; }
+      else if (op == "createM") { IPhreeqc *q = new IPhreeqc(); out = "{\"id\":" + jint(q->GetId()) + "}"; }        // C++ construction
+      else if (op == "destroyM") { IPhreeqc *q = live(atoi(f[1].c_str())); if (q) { delete q; out = "{\"r\":0}"; } else out = "{\"r\":-6}"; }   // C++ destruction of a live object
       else if (op == "destroy") { out = "{\"r\":" + jint(::DestroyIPhreeqc(atoi(f[1].c_str()))) + "}"; }
       else if (op == "destroyF") { int id = atoi(f[1].c_str()); out = "{\"r\":" + jint(::DestroyIPhreeqcF(&id)) + "}"; }
       else if (op == "live") {
